@@ -13,6 +13,34 @@ CLAIMS = {
   text="Kernel-checked theorems (Props/C14.lean) about the model of matcher.find_all over an arbitrary deterministic machine: bounds, recorded items = spanned items, accepting and longest run, position order and disjointness including the end-of-input loop, completeness up to pre-emption (completeness_partial) and a kernel-checked counterexample to full completeness (known finding KF1). Tie: differential testing of find_all on Identity atoms (exhaustive non-nullable ASTs x sequences) and on the header shapes with real token predicates (exhaustive token sequences).",
   note="Trusted as C13. Completeness is proved only in the partial form; the full clause is false of the code (KF1, required by pinned tests).",
   design="6/C14", technique="Lean 4 proof (invariant over the find_all loop) + differential correspondence"),
+ "C02": dict(
+  text="Every comparison that classifies a function length (profile buckets, counters, colours, symbols, check's risk filter, exit code, quiet condition, findings thresholds, Markdown symbols) is re-translated from the Python source into Lean on every run (Gen/Logic.lean) and proved equal to the category definition for every integer length (Props/C02.lean); the list-level claims about check (exit 1 iff some function > 60, listed = per-file filter > 30 longest first, summary count, quiet) are proved about a model of check_command/CheckResult that uses those generated decisions. The generated definitions and the glue are compared with the real functions for every length 0..200 and for random multisets of lengths over files.",
+  note="Trusted: Lean kernel; translator/logic.py (also exercised against the real functions); correspondence harness; rich/typer output capture.",
+  design="6/C02", technique="Lean 4 proof over source-regenerated decision logic (ast->Lean translator) + correspondence"),
+ "C04": dict(
+  text="Kernel-checked theorems (Props/C04.lean) about the model of the whole pipeline from tokens to measurements: scanFile commutes with every strictly monotone line relabelling (for every token list and language; Python under the natural no-insertion-inside-a-token hypothesis), depends on its input only through the code tokens and the lines carrying a marker comment, and counts only lines that carry a code token. That inserting blank/comment lines or trailing comments/whitespace at token-safe points changes each real lexer's code-token stream only by such a relabelling is checked on every run by a metamorphic comparison on canonical programs and a vendored corpus (1..5 simultaneous insertions; thorough: every safe point).",
+  note="Trusted: Lean kernel; correspondence harness incl. its computation of token-safe points; Pygments lexers (parameter).",
+  design="6/C04", technique="Lean 4 proof (relabelling invariance of the pipeline model) + metamorphic correspondence"),
+ "C06": dict(
+  text="Kernel-checked theorems (Props/C06.lean): match/starts_with/nfa_match/find_all do not depend on the set-iteration order nor on the state-id counter (bisimulation of the compiled tables), also for the stateful token predicates up to get_headers; the model is a pure function of (language, content). The runtime counterpart (hash randomisation, process-wide counter, state surviving between files) is tied by analysing files in fresh interpreters under different PYTHONHASHSEEDs and permuted orders with malformed files interleaved, comparing every per-file result with the model's, and by scanning one tree twice.",
+  note="Partial for the runtime: real hash randomisation and process state are represented as arbitrary iteration orders / id bases in the theorems; the link is the subprocess correspondence.",
+  design="6/C06", technique="Lean 4 proof (order/id-base independence by bisimulation) + subprocess correspondence"),
+ "C15": dict(
+  text="The shipped header and follow-up expressions are extracted from the running code into Gen/Languages.lean on every run; a decidable checker with a kernel-checked soundness theorem (finite token abstraction, depth-0 invariant for Balanced) is evaluated by the kernel on them (Props/C15.lean: all_ok), giving: in every reachable matcher configuration, at any nesting depth, for every token at most one transition applies; header extraction never raises (no ambiguity error, no StopIteration, no fuel). Correspondence: real find_all vs model on all sequences of the abstract tokens each pattern can distinguish.",
+  note="Trusted: Lean kernel; translator/patterns.py; correspondence harness.",
+  design="6/C15", technique="Lean 4 proof: verified decidable checker evaluated in the kernel on source-extracted patterns"),
+ "C16": dict(
+  text="Kernel-checked theorems (Props/C16.lean) about the model of lex/get_newline_indices/location_to_index/filter_tokens for every text and every raw token stream satisfying the lexer contract: reported (line, column) = (1 + newlines before, distance from line start + 1), location_to_index round-trips, the text at the position equals the token text, kept tokens strictly increase and do not overlap, whitespace never kept, comments kept iff requested. Correspondence: the real lex with the 7 real lexers vs the model on edge-case texts, programs, malformed stream, corpus; the contract is checked on every input.",
+  note="Trusted: Lean kernel; correspondence harness. Modelled not verified: Pygments lexers (contract RawOk + non-empty non-Text tokens, checked at run time).",
+  design="6/C16", technique="Lean 4 proof over the lex model + differential correspondence with contract checking"),
+ "C17": dict(
+  text="Kernel-checked theorems (Props/C17.lean): an independent characterisation of the marker recogniser, exactly the scopes whose name line carries a marker comment are dropped, and removing an independent function (neither enclosing nor nested, in a list sorted by header start) leaves every other scope with exactly its children - end to end through scanFile. Correspondence + metamorphic oracle: canonical programs with random subsets of independent functions marked in every comment style/case/spacing, decoys, and comment texts through the recogniser.",
+  note="Trusted: Lean kernel; correspondence harness and canonical generator. str.lower/strip modelled on code points. For languages without nested reporting a marker on an enclosing function reveals the inner one (reported_flat_full_fails; outside the canonical fragment).",
+  design="6/C17", technique="Lean 4 proof (filter/fold commutation) + metamorphic correspondence"),
+ "C19": dict(
+  text="quality_profile_percentage, both verdicts and the summary styles are re-translated from the source on every run (Gen/Logic.lean) and proved (Props/C19.lean) for all non-negative profiles: shown percentages are integers in 0..100 summing to 100, within one point (easy/verbose: two) of the true share, a category above 0.001 % never shows 0, verdict necessary iff unmaintainable > 0 or hard > 20, identical in both formats - with the rounding formula read exactly. The float evaluation is tied by correspondence on all profiles up to a total, adversarial near-ties and random large profiles (+1 tolerance at exact ties).",
+  note="Partial: IEEE-754 evaluation of the formula is not proved equal to the exact reading; it is checked on every explored profile. Trusted: Lean kernel; translator/logic.py; harness.",
+  design="6/C19", technique="Lean 4 proof over source-regenerated arithmetic (exact reading) + correspondence for the float link"),
 }
 
 NA_REASON = "check under construction in this round (see DESIGN.md section 6); not yet claimed"
